@@ -52,14 +52,6 @@ def _formula_text(case):
     return case.get('call') == 'validate' and len(pert) == 4 and pert[3] == 'formula-text'
 
 
-@known_predicate('C12-failed-cell-precedents-not-walked')
-def _failed_precedents(case):
-    # INERT until the coordinator lists it: the except branch of validate_calcs neither marks the cell verified nor
-    # pushes its precedents, so everything only reachable through a cell that raises (the cell that really cannot be
-    # evaluated included) is neither compared nor listed.  Model witness: coq/Refuted/C12_failed_cell_precedents.v
-    return case.get('call') == 'validate-failing' and case.get('variant') == 'precedents-of-a-failing-cell'
-
-
 def canon_model(v):
     """model values -> the canonical form of implementation values"""
     if isinstance(v, list):
@@ -650,19 +642,6 @@ def boomid(ident, *args):
 UNKNOWN_NAMES = ['NOSUCHFUNC', 'NOSUCHFUNC', 'NOSUCHB', 'MYFUNC']
 
 
-def unlisted(ctx, case, what, **kw):
-    """A property violation whose known-finding predicate is registered here but not (yet) listed by the
-    coordinator in known_findings.json: recorded in the evidence, not counted as a violation."""
-    if ctx.match_known(case) is not None:
-        ctx.violation(case, what, **kw)
-        return
-    lst = ctx.extra.setdefault('unlisted_findings', [])
-    if len(lst) < 5:
-        lst.append(dict(case={k: repr(v)[:400] for k, v in case.items()}, what=what,
-                        **{k: repr(v)[:300] for k, v in kw.items()}))
-    ctx.extra['unlisted_findings_total'] = ctx.extra.get('unlisted_findings_total', 0) + 1
-
-
 def inject12(wb, rng, forced=()):
     """Replace 1-3 formula cells by formulas that raise (or by a plugin call that returns 7), keeping the precedents.
     Returns {node index: (kind, wire fault, function name)}; kinds: unknown (NameError before any precedent is read),
@@ -754,7 +733,8 @@ def failing_stream(ctx, ExcelCompiler):
     from harness.props.c09 import extend
     batch = []
     try:
-        # the deterministic witness of coq/Refuted/C12_failed_cell_precedents.v first
+        # first the workbook of the finding repaired by /repo bbbc9be (known_findings.json
+        # C12-failed-cell-precedents-not-walked, kind fixed): a regression must show here
         jobs = [('witness', 'w')] + [('random', k) for k in range(ctx.n(110, 1100))]
         for which, k in jobs:
             if which == 'witness':
@@ -820,7 +800,7 @@ def failing_stream(ctx, ExcelCompiler):
             comp = ExcelCompiler(filename=path, plugins=('verif_c12_plugin',))
             case = dict(call='validate-failing', workbook=desc, args=[outs, tol], stored=mode, perturbed=pert,
                         faults={wb.nodes[i]['addr']: f[0] for i, f in faults.items()}, raise_exceptions=raise_exc,
-                        variant='correspondence')
+                        stream='failing', variant='correspondence')
             raised = None
             try:
                 rep = quiet(comp.validate_calcs, output_addrs=outs, tolerance=tol, raise_exceptions=raise_exc)
@@ -897,30 +877,41 @@ def oracle_failing(ctx, case, wb, faults, scratch, stored, mode, pert, outs, rep
             if mm is None or canon(mm.original) != canon(pert[2]) or canon(mm.calced) != canon(pert[1]):
                 ctx.violation(dict(case, variant='oracle'), "the altered cell is a checked output, evaluates, and is "
                               "not reported with its stored and recomputed value", impl=repr(rep)[:300])
-    # nothing reachable is skipped silently
+    # nothing reachable is skipped silently — below a cell that raises neither (repair bbbc9be of /repo):
+    # every formula cell the checked outputs depend on that cannot be evaluated is listed
     oi = wb.formulas() if outs is None else [wb.index_of(a) for a in outs]
     witness = pert is not None and pert[3] == 'witness'
-    for through_failing in ((False, True) if (sound or witness) else ()):
+    if sound or witness:
         seen, todo = set(), list(oi)
         while todo:
             x = todo.pop()
             if x in seen:
                 continue
             seen.add(x)
-            fails = wb.nodes[x]['kind'] == 'formula' and scratch[x][0] == 'raise'
-            if fails and x not in listed:
-                what = "a reachable cell that cannot be evaluated is under neither exceptions nor not-implemented"
-                if through_failing:
-                    unlisted(ctx, dict(case, variant='precedents-of-a-failing-cell', skipped=wb.nodes[x]['addr']),
-                             what + " (reached only through another cell that raises)", impl=repr(listed)[:300])
-                    break
-                ctx.violation(dict(case, variant='oracle', skipped=wb.nodes[x]['addr']), what, impl=repr(listed)[:300])
-            if through_failing or not fails:
-                todo.extend(wb.nodes[x]['deps'])
+            if wb.nodes[x]['kind'] == 'formula' and scratch[x][0] == 'raise' and x not in listed:
+                ctx.violation(dict(case, variant='oracle', skipped=wb.nodes[x]['addr']),
+                              "a cell the checked outputs depend on cannot be evaluated and is under neither exceptions "
+                              "nor not-implemented", impl=repr(listed)[:300])
+            todo.extend(wb.nodes[x]['deps'])
     if witness and wb.index_of(pert[0]) not in mism:
-        unlisted(ctx, dict(case, variant='precedents-of-a-failing-cell', skipped=pert[0]),
-                 "the altered stored result of a cell reachable from the checked output is not reported: the walk stops "
-                 "at the cell that raises", impl=repr(rep)[:300], expected=pert[0])
+        ctx.violation(dict(case, variant='oracle', skipped=pert[0]),
+                      "the altered stored result of a cell reachable from the checked output is not reported: the walk "
+                      "stops at the cell that raises", impl=repr(rep)[:300], expected=pert[0])
+    # an altered cell that evaluates and that the outputs reach is reported, whatever lies in between
+    if pert is not None and sound:
+        p = wb.index_of(pert[0])
+        reach, todo = set(), list(oi)
+        while todo:
+            x = todo.pop()
+            if x not in reach:
+                reach.add(x)
+                todo.extend(wb.nodes[x]['deps'])
+        if p in reach and scratch[p][0] == 'ok':
+            mm = rep.get('mismatch', {}).get(pert[0])
+            if mm is None or canon(mm.original) != canon(pert[2]) or canon(mm.calced) != canon(pert[1]):
+                ctx.violation(dict(case, variant='oracle'), "the altered cell is reachable from the checked outputs, "
+                              "evaluates, and is not reported with its stored and recomputed value",
+                              impl=repr(rep)[:300])
 
 
 def compare_failing(ctx, batch):
